@@ -2,7 +2,11 @@
    Statements only; proofs in TkProofs.Equity_proofs.
    equity known eqa ras ts: TxnData::from (sort) + EquityExporter::write_export, at AST level;
    ras = None: no equity account selectors, Some m: m = "some selector matches the account".
-   txns_wf: every posting has scale <= 28 and a well-formed account name. *)
+   txns_wf: every posting has scale <= 28 and a well-formed account name.
+   The theorems are at AST level and hold for every equity account eqa; that the posting line
+   written for it is read back as that account needs a grammar-valid name
+   (Equity_spec.eq_account_ok), which Settings::try_from enforces when the equity export is a
+   target (F20); the check exercises both sides of that condition. *)
 From Coq Require Import Sorted.
 From TkModel Require Import Base Dec Acct Txn Balance Accept Equity.
 From TkSpec Require Import Balance_spec Equity_spec.
@@ -70,6 +74,11 @@ Theorem C10_rows_oracle_sound : forall eqa src exp,
   rows_carry_ok eqa src exp = true -> RowsCarried eqa src exp.
 Proof. exact rows_carry_ok_sound. Qed.
 Print Assumptions C10_rows_oracle_sound.
+
+(* the equity account of the examples is a name the configuration accepts *)
+Example C10_eq_account_ok_example :
+  eq_account_ok c10_eo = true /\ eq_account_ok [[97]; [32; 98]]%N = false /\ eq_account_ok [[]] = false.
+Proof. exact eq_account_ok_example. Qed.
 
 (* non-vacuity: transactions out of order, two commodities, an account that cancels to zero;
    a one-sided selection (balancing postings) and the full selection (cancelling: warnings) *)
